@@ -301,6 +301,8 @@ func (c *Ctx) c16ReusedDestinations(n int) {
 	// with other contents, for stale state in it to matter
 	var objs [3]simdjson.Object
 	var arrs [3]simdjson.Array
+	var iterDsts [3]simdjson.Iter
+	var elemDsts [3]simdjson.Element
 	var reusePJ, cloneDst, deserDst *simdjson.ParsedJson
 	ser := simdjson.NewSerializer()
 	view := func(pj *simdjson.ParsedJson, reused bool, ri int) string {
@@ -347,6 +349,45 @@ func (c *Ctx) c16ReusedDestinations(n int) {
 				return "ERR iface " + err.Error()
 			}
 			dumpIface(&b, v)
+		}
+		// the same document through AdvanceIter / FindElement with destination iterators and
+		// elements kept from the documents before
+		{
+			x := pj.Iter()
+			var d *simdjson.Iter
+			if reused {
+				d = &iterDsts[ri]
+			} else {
+				d = &simdjson.Iter{}
+			}
+			if t, err := x.AdvanceIter(d); err == nil && t == simdjson.TypeRoot {
+				el := *d
+				el.AdvanceInto()
+				if v, err := el.Interface(); err == nil {
+					b.WriteString(" adviter:")
+					dumpIface(&b, v)
+				} else {
+					b.WriteString(" adviter:ERR")
+				}
+				if el.Type() == simdjson.TypeObject {
+					if o, err := el.Object(nil); err == nil {
+						var first simdjson.Iter
+						if name, _, err := o.NextElementBytes(&first); err == nil && name != nil {
+							y := pj.Iter()
+							var ed *simdjson.Element
+							if reused {
+								ed = &elemDsts[ri]
+							}
+							if e, err := y.FindElement(ed, string(name)); err == nil && e != nil {
+								if v, err := e.Iter.Interface(); err == nil {
+									b.WriteString(" find:")
+									dumpIface(&b, v)
+								}
+							}
+						}
+					}
+				}
+			}
 		}
 		return b.String()
 	}
